@@ -45,7 +45,8 @@ ScoreOK(mm, S, f) ==
          prods == [t \in 1..T |-> FMul(mm.fv[j][f][t], mm.cen[i][t])]
          sq == [t \in 1..T |-> FSq(FSub(mm.fv[j][f][t], mm.cen[i][t]))]
      IN  IF mm.metric = "euclidean"
-         THEN FLe(S[i][j], FZero) /\ Close(FSq(S[i][j]), FSum(sq), FAdd(FSum(sq), FSq(S[i][j])), SLK)
+         \* the differences cancel for matching rows: scale = sum (|x| + |c|)^2, not the (tiny) squared distance itself
+         THEN FLe(S[i][j], FZero) /\ Close(FSq(S[i][j]), FSum(sq), FSum([t \in 1..T |-> FSq(FAdd(FAbs(mm.fv[j][f][t]), FAbs(mm.cen[i][t])))]), SLK)
          ELSE Close(S[i][j], FSum(prods), FAdd(FSumAbs(prods), FAbs(S[i][j])), SLK)
 DecisionOK(mm, r) ==
   LET rp == Plus1(r.rp) Kn == K(mm)
